@@ -626,8 +626,18 @@ impl Group for OodG {
         obs.nontrivial_if(
             !s.set_trace || !s.set_evals || s.cols == 0 || s.cols >= 254 || matches!(s.lagrange, Some(0) | Some(254)) || fit || big || srcs_boundary(s.fk.base, &s.elems),
         );
-        let what = if big { "OodFrame(evals>65535B)" } else { "OodFrame" };
-        c.rt(what, &build_ood(s), obs)
+        if big {
+            // beyond the 16-bit length prefix: either the setter refuses the vector (then it is not a
+            // value the constructors accept) or the frame must survive the round trip
+            return match vf_core::catch(|| build_ood(s)) {
+                Ok(x) => c.rt("OodFrame(evals>65535B)", &x, obs),
+                Err(_) => {
+                    obs.label("evals>65535B:refused-by-setter");
+                    Ok(())
+                },
+            };
+        }
+        c.rt("OodFrame", &build_ood(s), obs)
     }
 }
 
